@@ -120,14 +120,19 @@ pub fn apply_obj(c: &ObjectCache, op: Op) -> Ret {
     }
 }
 
-/// The op alphabet for the exhaustive enumeration: get/put on 3 keys, clear, len.
-pub const NOPS: usize = 8;
-pub fn op_of(code: usize, fresh: u32) -> Op {
-    match code {
-        0..=2 => Op::Get(code as u8),
-        3..=5 => Op::Put((code - 3) as u8, fresh),
-        6 => Op::Clear,
-        _ => Op::Len,
+/// The op alphabet for the exhaustive enumeration: get/put on `nkeys` keys, clear, len.
+pub fn nops(nkeys: usize) -> usize {
+    2 * nkeys + 2
+}
+pub fn op_of(code: usize, fresh: u32, nkeys: usize) -> Op {
+    if code < nkeys {
+        Op::Get(code as u8)
+    } else if code < 2 * nkeys {
+        Op::Put((code - nkeys) as u8, fresh)
+    } else if code == 2 * nkeys {
+        Op::Clear
+    } else {
+        Op::Len
     }
 }
 
@@ -146,11 +151,12 @@ pub fn run_sequence<C: CacheUnderTest>(
     mut cut: C,
     cap: usize,
     codes: &[usize],
+    nkeys: usize,
     evicted: &mut bool,
 ) -> Result<(), String> {
     let mut m = Model::new(cap);
     for (i, &c) in codes.iter().enumerate() {
-        let op = op_of(c, 100 + i as u32);
+        let op = op_of(c, 100 + i as u32, nkeys);
         if let Op::Put(k, _) = op {
             if cap > 0 && m.items.len() >= cap && !m.items.iter().any(|e| e.0 == k) {
                 *evicted = true;
@@ -161,7 +167,7 @@ pub fn run_sequence<C: CacheUnderTest>(
         if want != got {
             return Err(format!(
                 "cap={cap} ops={:?} step {i} {:?}: model {:?}, cache {:?}",
-                codes.iter().enumerate().map(|(j, &c)| op_of(c, 100 + j as u32)).collect::<Vec<_>>(),
+                codes.iter().enumerate().map(|(j, &c)| op_of(c, 100 + j as u32, nkeys)).collect::<Vec<_>>(),
                 op, want, got
             ));
         }
@@ -171,13 +177,13 @@ pub fn run_sequence<C: CacheUnderTest>(
             }
         }
     }
-    for k in 0..3u8 {
+    for k in 0..nkeys as u8 {
         let want = m.apply(Op::Get(k));
         let got = cut.apply(Op::Get(k));
         if want != got {
             return Err(format!(
                 "cap={cap} ops={:?} final probe Get({k}): model {:?}, cache {:?}",
-                codes.iter().enumerate().map(|(j, &c)| op_of(c, 100 + j as u32)).collect::<Vec<_>>(),
+                codes.iter().enumerate().map(|(j, &c)| op_of(c, 100 + j as u32, nkeys)).collect::<Vec<_>>(),
                 want, got
             ));
         }
@@ -187,8 +193,14 @@ pub fn run_sequence<C: CacheUnderTest>(
 
 /// Enumerate all sequences of exactly `len` op codes whose index (base NOPS)
 /// satisfies `mine(idx)`, for both cache types and capacities 0..=4.
-pub fn enumerate(len: usize, mine: &dyn Fn(u64) -> bool, st: &mut SeqStats) {
-    let total = (NOPS as u64).pow(len as u32);
+pub fn enumerate(len: usize, nkeys: usize, mine: &dyn Fn(u64) -> bool, st: &mut SeqStats) {
+    enumerate_caps(len, nkeys, &[0, 1, 2, 3, 4], true, mine, st)
+}
+
+/// Same, restricted to the given capacities; `both` = also run ObjectCache.
+pub fn enumerate_caps(len: usize, nkeys: usize, caps: &[usize], both: bool, mine: &dyn Fn(u64) -> bool, st: &mut SeqStats) {
+    let nops = nops(nkeys);
+    let total = (nops as u64).pow(len as u32);
     let mut codes = vec![0usize; len];
     for idx in 0..total {
         if !mine(idx) {
@@ -196,15 +208,15 @@ pub fn enumerate(len: usize, mine: &dyn Fn(u64) -> bool, st: &mut SeqStats) {
         }
         let mut x = idx;
         for c in codes.iter_mut() {
-            *c = (x % NOPS as u64) as usize;
-            x /= NOPS as u64;
+            *c = (x % nops as u64) as usize;
+            x /= nops as u64;
         }
-        for cap in 0..=4usize {
+        for &cap in caps {
             let mut ev = false;
-            let r1 = run_sequence(LruUT(LruCache::new(cap)), cap, &codes, &mut ev);
-            let r2 = run_sequence(ObjUT(ObjectCache::new(cap)), cap, &codes, &mut ev);
-            st.sequences += 2;
-            st.steps += 2 * (len as u64 + 3);
+            let r1 = run_sequence(LruUT(LruCache::new(cap)), cap, &codes, nkeys, &mut ev);
+            let r2 = if both { run_sequence(ObjUT(ObjectCache::new(cap)), cap, &codes, nkeys, &mut ev) } else { Ok(()) };
+            st.sequences += 1 + both as u64;
+            st.steps += (1 + both as u64) * (len + nkeys) as u64;
             if ev {
                 st.with_eviction += 1;
             }
@@ -256,8 +268,10 @@ pub fn run_plan(plan: &Plan, yield_instead_of_spin: bool) -> (Vec<Event>, usize)
             (cache.clone(), clock.clone(), ready.clone(), ops.clone(), max_size.clone());
         handles.push(std::thread::spawn(move || {
             ready.fetch_add(1, Ordering::SeqCst);
+            let mut spins = 0u32;
             while ready.load(Ordering::SeqCst) < n {
-                if yield_instead_of_spin {
+                spins += 1;
+                if yield_instead_of_spin || spins > 2000 {
                     std::thread::yield_now();
                 } else {
                     std::hint::spin_loop();
@@ -286,6 +300,21 @@ pub fn run_plan(plan: &Plan, yield_instead_of_spin: bool) -> (Vec<Event>, usize)
     let mut all = Vec::new();
     for h in handles {
         all.extend(h.join().expect("worker thread"));
+    }
+    // epilogue at quiescence (main thread): size and membership of every key
+    let mut epi = vec![Op::Len];
+    for k in 0..3u8 {
+        epi.push(Op::Get(k));
+    }
+    epi.push(Op::Len);
+    for op in epi {
+        let call = clock.fetch_add(1, Ordering::SeqCst);
+        let ret = apply_obj(&cache, op);
+        let retn = clock.fetch_add(1, Ordering::SeqCst);
+        if let Ret::Len(sz) = ret {
+            max_size.fetch_max(sz, Ordering::SeqCst);
+        }
+        all.push(Event { thread: usize::MAX, op, ret, call, retn });
     }
     all.sort_by_key(|e| e.call);
     (all, max_size.load(Ordering::SeqCst))
@@ -350,7 +379,7 @@ pub fn interleaving_sig(h: &[Event]) -> String {
         evs.push((e.retn, 'r', e.thread));
     }
     evs.sort();
-    evs.iter().map(|e| format!("{}{}", e.1, e.2)).collect::<Vec<_>>().join("")
+    evs.iter().filter(|e| e.2 != usize::MAX).map(|e| format!("{}{}", e.1, e.2)).collect::<Vec<_>>().join("")
 }
 
 /// Tiny LCG so plans are reproducible without the harness RNG (Miri target).
